@@ -32,6 +32,11 @@ pub fn routing_table_reset_id(table: &mut RoutingTable, id: Id) {
     table.reset_id(id)
 }
 
+/// `Node::new_with_token` (crate-private): a node as a lookup that received `token` from it would hold it.
+pub fn node_with_token(id: Id, address: std::net::SocketAddrV4, token: Box<[u8]>) -> Node {
+    Node::new_with_token(id, address, token)
+}
+
 /// `RoutingTable::closest_secure` (crate-private).
 pub fn routing_table_closest_secure(table: &RoutingTable, target: Id) -> Vec<Node> {
     table.closest_secure(target)
